@@ -116,7 +116,7 @@ def expand(m, v, check_positions=None, kw=None, stats=None, repair=True):
     return out
 
 
-def valid_set(name, m, tier, nseeds=None, check_positions=None, kw=None, cap=None, depth=None):
+def valid_set(name, m, tier, nseeds=None, check_positions=None, kw=None, cap=None, depth=None, extra_seeds=()):
     """Returns (sorted list of distinct canonical valid numbers, stats)."""
     from . import seeds as seedmod
     quick = tier != 'thorough'
@@ -158,6 +158,9 @@ def valid_set(name, m, tier, nseeds=None, check_positions=None, kw=None, cap=Non
                 nodes.setdefault(u, 0)
         except Exception:
             pass
+    for u in extra_seeds:
+        if _accepts(m, u, kw):
+            nodes.setdefault(u, 0)
     stats = {'seeds': len(nodes), 'edges': 0, 'tried': 0}
     frontier = list(nodes)
     # slow validators (registry lookups of ~4 ms): bound the number of expanded nodes, and say so
